@@ -230,6 +230,19 @@ def main():
     for kind, mk in (("reduce", mk_r), ("elementwise", mk_e)):
         for a, b in (("2", "2.0"), ("2.0", "2"), ("1", "True"), ("True", "1"), ("0.0", "-0.0")):
             items.append(("constant-history", f"{kind} value objects {a} then {b}", [mk(f"{kind}:value-object:{a}")], mk(f"{kind}:value-object:{b}")))
+    # (2e) description histories: the SAME description text used by operations of different families one after the
+    # other (whatever einx remembers about a text must not carry one operation's reading over to the next)
+    texts = [("a b -> a", [[3, 1]]), ("a b -> b", [[1, 3]]), ("a b c -> a c", [[2, 1, 3]]), ("a b", [[3, 1]]), ("a [b]", [[3, 2]]), ("(a b) -> a", [[3]])]
+    fam_ops = [("sum", {}), ("max", {}), ("flip", {}), ("roll", {"shift": 1}), ("softmax", {}), ("sort", {}), ("id", {}), ("argmax", {})]
+    for desc, shapes in texts:
+        for o1, k1 in fam_ops:
+            for o2, k2 in fam_ops:
+                if o1 == o2:
+                    continue
+                if tier == "quick" and not ({o1, o2} & {"sum", "max"} and {o1, o2} & {"flip", "roll", "softmax", "sort"}):
+                    continue
+                kw_extra = {"a": 3} if desc.startswith("(a b)") else {}
+                items.append(("description-history", f"{o1} then {o2} on {desc!r}", {"op": o1, "desc": desc, "shapes": shapes, "kwargs": dict(k1, **kw_extra)}, {"op": o2, "desc": desc, "shapes": shapes, "kwargs": dict(k2, **kw_extra)}))
     # (3) failing call followed by a valid one, and a valid call repeated after the failing one of the same key family
     for fname, failing in FAILING:
         items.append(("failure-hygiene", fname, failing, GOOD))
